@@ -164,4 +164,76 @@ theorem rowSizes (b : Nat → GBlock) (cn : Nat → GConn) (w : Nat → Rat) (n 
     rw [e, hrec, h0 i (by omega), List.range'_succ, List.map_cons]
     congr 1; ring
 
+/-! ### the number of blocks bounds the row length; a row can be walked from either end -/
+
+theorem findB_mem {T : TGrid} {n : Str} {x : GBlock} (h : findB T n = .ok x) : x ∈ T.blocks := by
+  unfold findB at h
+  split at h
+  · rename_i y hy
+    cases h
+    exact List.mem_of_find?_eq_some hy
+  · cases h
+
+theorem nodup_map_on {α β} (f : α → β) : ∀ (l : List α), l.Nodup →
+    (∀ x ∈ l, ∀ y ∈ l, f x = f y → x = y) → (l.map f).Nodup := by
+  intro l
+  induction l with
+  | nil => intro _ _; exact List.nodup_nil
+  | cons a l ih =>
+    intro hnd hinj
+    rw [List.nodup_cons] at hnd
+    rw [List.map_cons, List.nodup_cons]
+    refine ⟨?_, ih hnd.2 (fun x hx y hy => hinj x (List.mem_cons_of_mem _ hx) y (List.mem_cons_of_mem _ hy))⟩
+    intro hm
+    obtain ⟨y, hy, e⟩ := List.mem_map.1 hm
+    have := hinj a List.mem_cons_self y (List.mem_cons_of_mem _ hy) e.symm
+    exact hnd.1 (this ▸ hy)
+
+namespace Row
+variable {T : TGrid} {k : Nat} {mv : Option Rat} {n : Nat} {b : Nat → GBlock} {cn : Nat → GConn}
+
+/-- the grid has at least the `n + 1` blocks of the row -/
+theorem length_le (R : Row T k mv n b cn) : n + 1 ≤ T.blocks.length := by
+  have hnd : ((List.range (n + 1)).map b).Nodup := by
+    apply nodup_map_on _ _ List.nodup_range
+    intro i hi j hj e
+    exact R.inj i j (by have := List.mem_range.1 hi; omega) (by have := List.mem_range.1 hj; omega) (by rw [e])
+  have hsub : (List.range (n + 1)).map b ⊆ T.blocks := by
+    intro x hx
+    obtain ⟨i, hi, rfl⟩ := List.mem_map.1 hx
+    exact findB_mem (R.reg i (by have := List.mem_range.1 hi; omega))
+  have := List.Nodup.length_le_of_subset hnd hsub
+  simpa using this
+
+theorem joins_symm {c : GConn} {x y : Str} (h : joins c x y = true) : joins c y x = true := by
+  rw [joins_iff] at h ⊢
+  rcases h with h | h
+  · exact Or.inr h
+  · exact Or.inl h
+
+/-- the same row, walked from its last block -/
+theorem reverse (R : Row T k mv n b cn) : Row T k mv n (fun i => b (n - i)) (fun i => cn (n - 1 - i)) where
+  inj := fun i j hi hj h => by have := R.inj (n - i) (n - j) (by omega) (by omega) h; omega
+  reg := fun i _ => R.reg (n - i) (by omega)
+  adm := fun i _ => R.adm (n - i) (by omega)
+  mem := fun i hi => R.mem (n - 1 - i) (by omega)
+  dir := fun i hi => R.dir (n - 1 - i) (by omega)
+  jn := fun i hi => by
+    have h := R.jn (n - 1 - i) (by omega)
+    have e1 : n - 1 - i + 1 = n - i := by omega
+    have e2 : n - (i + 1) = n - 1 - i := by omega
+    rw [e1] at h
+    simp only [e2]
+    exact joins_symm h
+  closed := by
+    intro c hc hk i hi ht
+    rcases R.closed c hc hk (n - i) (by omega) ht with ⟨i', hi', rfl⟩ | h
+    · left
+      refine ⟨n - 1 - i', by omega, ?_⟩
+      have : n - 1 - (n - 1 - i') = i' := by omega
+      simp only [this]
+    · right; exact h
+
+end Row
+
 end Proofs.RectGeo
